@@ -287,13 +287,26 @@ Error CodeHolder::reinit() noexcept {
   }
   CodeHolder_add_text_section(this);
 
+  Error err = Error::kOk;
   BaseEmitter* emitter = _attached_first;
+
   while (emitter) {
-    emitter->on_reinit(*this);
-    emitter = emitter->_attached_next;
+    BaseEmitter* next = emitter->_attached_next;
+    Error emitter_err = emitter->on_reinit(*this);
+
+    // An emitter that failed to reinitialize itself (out of memory) must not stay attached in a half-initialized
+    // state (for example a Compiler without its register allocation pass) - detach it and report the failure.
+    if (ASMJIT_UNLIKELY(emitter_err != Error::kOk)) {
+      (void)detach(emitter);
+      if (err == Error::kOk) {
+        err = emitter_err;
+      }
+    }
+
+    emitter = next;
   }
 
-  return Error::kOk;
+  return err;
 }
 
 void CodeHolder::reset(ResetPolicy reset_policy) noexcept {
